@@ -32,7 +32,7 @@ func Plan(g *Gen, blobOnly bool) []Input {
 	for i := 0; i < n/4; i++ {
 		inputs = append(inputs, g.Raw())
 	}
-	for i := 0; i < n/2; i++ {
+	for i := 0; i < verifutil.EnvInt("VERIF_N_PF", n/2); i++ {
 		inputs = append(inputs, g.FooterBytes())
 	}
 	stride := 1
@@ -48,7 +48,7 @@ func Plan(g *Gen, blobOnly bool) []Input {
 	for i := 0; i < n/8; i++ {
 		inputs = append(inputs, g.Tar())
 	}
-	for i := 0; i < n; i++ {
+	for i := 0; i < verifutil.EnvInt("VERIF_N_ARITH", n); i++ {
 		inputs = append(inputs, g.ArithOp())
 	}
 	if blobOnly {
